@@ -602,7 +602,42 @@ def r03_6(ctx: Ctx, roots) -> None:
                 return True
         return False
 
-    resolvers = [h for h in helpers if not ({attr_tail(c) for c in q.calls(h)} & {"commonpath", "relative_to", "is_relative_to", "samefile", "startswith", "commonprefix"})]
+    # os.path.realpath (non-strict) / Path.resolve() cannot be repaired after the fact: a component they could not examine (ENAMETOOLONG for a link
+    # whose absolute spelling passes PATH_MAX, EACCES) is taken for a plain name and a later '..' REMOVES it from the answer, so no probe of the
+    # answer sees it, while the system walks a short spelling through the link.  Outside the win32 arm the resolver walks the path itself:
+    # (a) no lenient realpath/resolve call without a platform guard, (b) every lstat/readlink of the walk stands in a try whose OSError handler
+    # (other than 'does not exist') refuses, (c) following a link is bounded by a counter
+    for h in helpers:
+        lenient = [c for c in q.calls(h) if (dotted(c.func) == "os.path.realpath" or attr_tail(c) == "resolve")
+                   and not any(k.arg == "strict" and isinstance(k.value, ast.Constant) and k.value.value is True for k in c.keywords)]
+        for c in lenient:
+            guarded = any(pol and "platform" in norm(cd) and "win" in norm(cd) for cd, pol in q.facts_at(h, c))
+            ctx.check(guarded, "R03.6", h, c, f"{h.name}: no lenient realpath outside the win32 arm",
+                      f"`{norm(c)}` decides where a path leads on POSIX: realpath takes a component whose lstat fails (a link whose absolute path is longer than PATH_MAX: "
+                      "ENAMETOOLONG) for a directory, and the '..' components behind it pop it from the answer - the probe of the answer never meets it, the kernel follows the "
+                      "link: one archive (long nested directories, a short link into them, a link x -> k/<long>/s/../../..../<victim>) makes extractall() write, re-time and "
+                      "re-mode files at any absolute path", construct=f"{h.name} lenient realpath")
+        walks = [c for c in q.calls(h) if dotted(c.func) in ("os.lstat", "os.readlink") and not any(pol and "platform" in norm(cd) and "win" in norm(cd) for cd, pol in q.facts_at(h, c))]
+        for c in walks:
+            tr = [t for t in walk(h.node) if isinstance(t, ast.Try) and any(c is x for st in t.body for x in ast.walk(st))]
+            refuses = bool(tr) and any(hh.type is not None and any(isinstance(x, ast.Name) and x.id in ("OSError", "Exception") for x in ast.walk(hh.type)) and
+                                       hh.body and isinstance(hh.body[-1], ast.Return) and isinstance(hh.body[-1].value, ast.Constant) and hh.body[-1].value.value in (None, False)
+                                       for hh in tr[-1].handlers)
+            ctx.check(refuses, "R03.6", h, c, f"{h.name}: a component that cannot be examined ends the walk with a refusal",
+                      f"`{norm(c)}` in the component walk of {h.name} is not covered by an `except OSError: return None`: a component the walk cannot examine is taken on trust",
+                      construct=f"{h.name} walk trusts an unexaminable component")
+        rl = [c for c in walks if dotted(c.func) == "os.readlink"]
+        for c in rl:
+            cfg_h = cfg_of(h.node)
+            bounded = any(t.kind == "test" and isinstance(t.ast, ast.Compare) and isinstance(t.ast.ops[0], (ast.Gt, ast.GtE)) and cfg_h.dominates(t, q.node_for(h, c))
+                          and any(e.kind == "true" and (q.branch_always_raises(cfg_h, e) or any(isinstance(n_.ast, ast.Return) for n_ in e.succ)) for e in t.succ) for t in cfg_h.nodes)
+            ctx.check(bounded, "R03.6", h, c, f"{h.name}: the number of links followed is bounded",
+                      f"{h.name} follows links without a bound: a link that leads to itself keeps the containment check (and with it extractall) busy for ever", construct=f"{h.name} unbounded link following")
+    def cmp_names(h) -> set:
+        """names of the path-comparing calls of h; `x.startswith("/")` with a constant is a test of the text's form, not a comparison of two paths"""
+        return {attr_tail(c) for c in q.calls(h) if not (attr_tail(c) == "startswith" and c.args and isinstance(c.args[0], (ast.Constant, ast.Tuple))
+                                                          and all(isinstance(e, ast.Constant) for e in (c.args[0].elts if isinstance(c.args[0], ast.Tuple) else [c.args[0]])))}
+    resolvers = [h for h in helpers if not (cmp_names(h) & {"commonpath", "relative_to", "is_relative_to", "samefile", "startswith", "commonprefix"})]
     for h in helpers:
         direct = [c for c in q.calls(h) if dotted(c.func) == "os.path.realpath" or (isinstance(c.func, ast.Attribute) and c.func.attr in ("resolve",))]
         ctx.check(fails_closed(h), "R03.6", h, direct[0], f"{h.name}: realpath's answer is examined (fails closed)",
@@ -623,7 +658,7 @@ def r03_6(ctx: Ctx, roots) -> None:
                   f"{h.name} resolves only a part of the target (e.g. its parent directory): when the last component already is a link created by an earlier member, "
                   "open()/touch()/utime follow it to a place the check never looked at")
         # comparison: commonpath == base / relative_to / is_relative_to ; never a plain string prefix
-        names = {attr_tail(c) for c in q.calls(h)}
+        names = cmp_names(h)
         pathwise = bool(names & {"commonpath", "relative_to", "is_relative_to", "samefile"})
         stringy = bool(names & {"startswith", "commonprefix"})
         ctx.check(pathwise and not stringy, "R03.6", h, h.node, f"{h.name} compares component-wise",
